@@ -2,7 +2,7 @@
    Model: Pd/Layout.v (both configuration paths, window bookkeeping, group start addresses, the
    device-side meaning of an FMMU).  Statements are for the Debug integer mode, where a run that
    does not panic has passed every width check; c08_release carries them to Release. *)
-From EC Require Import Base.Prelude Base.Bytes Pd.Layout Pd.LayoutProofs Wire.Layout Gen.SrcLayouts Net.Commute.
+From EC Require Import Base.Prelude Base.Bytes Pd.Layout Pd.LayoutProofs Wire.Layout Gen.SrcLayouts Net.Commute Net.CycleAll.
 Local Open Scope N_scope.
 
 (* windows of a group that came up: inputs of all devices first, then all outputs, consecutive and
@@ -181,3 +181,19 @@ Theorem c08_group_cycle_example :
     match ms' with [m'] => [m' 4352; m' 4353; m' 4354; m' 4355; m' 4360] = [171; 205; 239; 4355 mod 251; 4360 mod 251] | _ => False end.
 Proof. exact group_cycle_example. Qed.
 Print Assumptions c08_group_cycle_example.
+
+(* the same for ANY mixture of EEPROM-configured devices and CoE-configured devices whose
+   data-carrying sync managers are adjacent per direction ([coe_adj]; the case in which the shared
+   FMMU maps correctly - cf. c08_coe_shared_fmmu_refuted for the other case) *)
+Theorem c08_group_cycle_any : forall start max dvs g ms image,
+  cfg_group Debug start max (map init_dev dvs) = Ok g ->
+  Forall dev_sane_any dvs -> length ms = length dvs -> N.of_nat (length image) = g_pdi_len g ->
+  let cs := build start (g_devs g) (g_in g) (g_out g) ms in
+  let '(ms', out) := ring cs start image in
+  length out = length image /\
+  Forall2' (dev_result start image out) cs ms' /\
+  (forall t, (t < length image)%nat ->
+     (forall c, In c cs -> ~ (fst (c_win c) <= start + N.of_nat t /\ start + N.of_nat t < snd (c_win c))) ->
+     nth t out 0 = nth t image 0).
+Proof. exact group_cycle_any. Qed.
+Print Assumptions c08_group_cycle_any.
